@@ -119,6 +119,20 @@ def make_plan(rnd, quick):
                 for nt in (2, 3, 4):
                     xid += 1
                     execs.append(make_exec(rnd, xid, fam, state, nt, heavy=not quick))
+    # cold-start bursts: every thread issues the same const query first, on an object on which no const query has run yet --
+    # the schedule under which a lazily built, unguarded cache inside any const method shows (whatever family, whatever method)
+    burst_ops = ["gqw", "int", "ihf", "giw", "gdw", "ev", "evb", "dif", "ehf", "ghs"]
+    for fam in FAMS:
+        for state in ("loaded", "fresh"):
+            for op in burst_ops:
+                if op not in applicable_ops(fam, state, 0):
+                    continue
+                for rep in range(3 if quick else 8):        # a race shows in a fraction of the runs: several fresh objects per query
+                    xid += 1
+                    nt = 4 if rep % 2 == 0 else 3
+                    other = [o for o in burst_ops if o in applicable_ops(fam, state, 0) and o != op]
+                    threads = [["%s:%d" % (op, rnd.randrange(40)), "%s:%d" % (rnd.choice(other), rnd.randrange(40)), "%s:%d" % (op, rnd.randrange(40))] for _ in range(nt)]
+                    execs.append({"x": xid, "fam": fam, "var": 0, "state": state, "nt": nt, "ypm": 0, "seed": rnd.randrange(1, 1 << 30), "threads": threads})
     # the wavelet family owns the only hooked cell: more seeds, all variant bits
     for rep in range(2 if quick else 10):
         for state in BASE_STATES + EXTRA_STATES:
